@@ -58,7 +58,14 @@ for d in sorted(glob.glob(os.path.join(V, "seeded", "*", "*"))):
 seeded = "%d kept seeded changes have a recorded run: %d caught, %d of them with a concrete failing input.\n\n" % (n_total, n_caught, n_input) + "\n".join(srows)
 dp = os.path.join(V, "DESIGN.md")
 s = open(dp).read()
-for key, txt in (("status", status), ("seeded", seeded)):
+frows = ["| property | key | what fails (recorded, not repaired) |", "|---|---|---|"]
+import re as _re
+for l in kf:
+    m = _re.match(r"^finding:\s+property=(\S+)\s+key=(\S+)\s+(.*)$", l)
+    if m: frows.append("| %s | `%s` | %s |" % (m.group(1), m.group(2), m.group(3)[:400].replace("|", "/")))
+nfixed = sum(1 for l in kf if l.startswith("fixed:"))
+findings = "%d defects were repaired (`fixed:` lines, one `fix:` commit each on /repo main); %d are recorded:\n\n" % (nfixed, len(frows) - 2) + "\n".join(frows)
+for key, txt in (("status", status), ("seeded", seeded), ("findings", findings)):
     s = re.sub(r"(<!-- BEGIN:%s -->).*?(<!-- END:%s -->)" % (key, key), lambda m: m.group(1) + "\n" + txt + "\n" + m.group(2), s, flags=re.S)
 open(dp, "w").write(s)
 print("tables regenerated")
